@@ -57,9 +57,25 @@ func main() {
 		[]int{0, 0, 1, 2, 2, 2, 2, 1, 0, 0, 1, 1, 0, 0, 0}, r)
 	runControlled("script-lost-wakeup", mk(4, []qop{{k: kRecv}}, []qop{{k: kSetDl, dl: 3}}, []qop{{k: kClose}}),
 		[]int{0, 0, 1, 2, 2, 2, 2, 1, 0, 0, 1, 1, 0, 0, 0}, r)
-	// (c) open finding: Close behind a Send blocked on a full queue
+	// (c) fixed finding C17:close-behind-blocked-send (regression: must pass now): the second Send is
+	// parked on the full queue holding the queue mutex; Close publishes closed and cancels (2 steps),
+	// the Send is released with io.EOF, Close returns nil, item 1 stays queued
 	runControlled("script-close-behind-send", mk(1, []qop{{k: kSend, v: 1}, {k: kSend, v: 2}}, []qop{{k: kClose}}),
-		append(rep(0, 9), 1), r)
+		append(rep(0, 9), 1, 1, 0, 0, 1), r)
+	// same with Close parked in its wait for the mutex before the Send is resumed, and with a reader
+	runControlled("script-close-behind-send", mk(1, []qop{{k: kSend, v: 1}, {k: kSend, v: 2}}, []qop{{k: kClose}}),
+		append(rep(0, 9), 1, 1, 1, 0, 0), r)
+	runControlled("script-close-behind-send", mk(1, []qop{{k: kSend, v: 1}, {k: kSend, v: 2}}, []qop{{k: kClose}}, []qop{{k: kRecv}, {k: kRecv}}),
+		append(rep(0, 9), 1, 1, 1, 0, 0, 2, 2, 2, 2, 2, 2, 2, 2), r)
+	// (d) the schedule that refutes the candidate repair without the barrier in Recv
+	// (c17_close_candidate_without_barrier_refuted): Send in flight at its select, Close publishes
+	// closed, Recv sees closed on the empty queue: it must wait for the Send, not report io.EOF
+	for _, cp := range []int{1, 2} {
+		runControlled("script-recv-barrier", mk(cp, []qop{{k: kSend, v: 7}}, []qop{{k: kClose}}, []qop{{k: kRecv}, {k: kRecv}}),
+			[]int{0, 0, 0, 0, 1, 2, 2, 2, 0, 0, 2, 2, 2, 2, 2, 2, 1, 1}, r)
+		runControlled("script-recv-barrier", mk(cp, []qop{{k: kSend, v: 7}}, []qop{{k: kClose}}, []qop{{k: kRecv}, {k: kRecv}}),
+			[]int{0, 0, 0, 0, 1, 1, 2, 2, 2, 1, 0, 0, 2, 2, 2, 2, 2, 2}, r)
+	}
 
 	if s := os.Getenv("VERIF_C17_SCRIPT"); s != "" { // manual replay: "cap;T0 ops;T1 ops|schedule" is not needed — use the replay file's fields
 		_ = s
@@ -87,6 +103,7 @@ func main() {
 	}
 
 	runLifecycle(r)
+	runHandleRead(r) // hread.go: Handle.Read / ReadMsg leftover handling (Corr/CorrC17Read.v)
 
 	// race detector reports (GORACE log_path=race in the run prefix; exitcode=0 so that the
 	// cases above still reach the checker)
